@@ -4,6 +4,7 @@ import (
 	"encoding/json"
 	"fmt"
 	"math"
+	"math/big"
 	"os"
 
 	clip "github.com/bolom009/go-clipper2"
@@ -25,7 +26,62 @@ type dCase struct {
 	Flag   bool        `json:"flag"`
 }
 
-var dFns = []string{"BooleanOpPathsD", "UnionPathsD", "engineD", "BooleanOpPolyTreeD", "InflatePathsD", "MinkowskiSumD", "MinkowskiDiffD", "RectClipPathsD", "RectClipLinesPathsD", "TrimCollinearD", "precision-range"}
+// "multiplied by 10^p and rounded to the nearest integer": q is acceptable for the input coordinate x
+// when it is a nearest integer of the exact product x·10^p or of its float64 evaluation (ties: both
+// neighbours).  Own arithmetic (math/big), nothing of the library.
+func nearestOK(x float64, prec int, q int64) bool {
+	if math.IsNaN(x) || math.IsInf(x, 0) {
+		return true
+	}
+	half := big.NewRat(1, 2)
+	ok := func(v *big.Rat) bool {
+		d := new(big.Rat).Sub(new(big.Rat).SetInt64(q), v)
+		return d.Abs(d).Cmp(half) <= 0
+	}
+	pw := new(big.Rat).SetInt(new(big.Int).Exp(big.NewInt(10), big.NewInt(int64(abs(prec))), nil))
+	exact := new(big.Rat).SetFloat64(x)
+	if prec >= 0 {
+		exact.Mul(exact, pw)
+	} else {
+		exact.Quo(exact, pw)
+	}
+	if ok(exact) {
+		return true
+	}
+	fl := x * math.Pow(10, float64(prec))
+	if math.IsInf(fl, 0) {
+		return true
+	}
+	return ok(new(big.Rat).SetFloat64(fl))
+}
+
+func abs(i int) int {
+	if i < 0 {
+		return -i
+	}
+	return i
+}
+
+// every coordinate of the case through the library's quantisers
+func quantCheck(c dCase) string {
+	scale := math.Pow(10, float64(c.Prec))
+	for _, ps := range []clip.PathsD{c.A, c.B} {
+		q2 := clip.ScalePathsDToPaths64(ps, scale)
+		for i, p := range ps {
+			q1 := clip.ScalePathDToPath64(p, scale)
+			for j, pt := range p {
+				for _, t := range [][3]interface{}{{pt.X, q1[j].X, "ScalePathDToPath64"}, {pt.Y, q1[j].Y, "ScalePathDToPath64"}, {pt.X, q2[i][j].X, "ScalePathsDToPaths64"}, {pt.Y, q2[i][j].Y, "ScalePathsDToPaths64"}} {
+					if !nearestOK(t[0].(float64), c.Prec, t[1].(int64)) {
+						return fmt.Sprintf("%s quantises %v (precision %d, scaled %v) to %d, which is not a nearest integer", t[2], t[0], c.Prec, t[0].(float64)*scale, t[1])
+					}
+				}
+			}
+		}
+	}
+	return ""
+}
+
+var dFns = []string{"BooleanOpPathsD", "UnionPathsD", "engineD", "BooleanOpPolyTreeD", "InflatePathsD", "MinkowskiSumD", "MinkowskiDiffD", "RectClipPathsD", "RectClipLinesPathsD", "TrimCollinearD", "quantise", "precision-range"}
 
 func quantRect(r [4]float64, scale float64) clip.Rect64 {
 	q := func(v float64) int64 {
@@ -159,13 +215,17 @@ func genDPaths(r *Rng, prec int, n int) clip.PathsD {
 		for j := range p {
 			// multiples of half a quantum (ties) and off-grid values, kept small after scaling
 			k := float64(r.Range(-40, 40))
-			switch r.Pick(3, 2, 2) {
+			switch r.Pick(6, 4, 4, 1) {
 			case 0:
 				p[j].X = k * step * 4
 			case 1:
 				p[j].X = (k + 0.5) * step
-			default:
+			case 2:
 				p[j].X = k*step*4 + r.Float()*step
+			default:
+				// the doubles next to half a quantum (below / above), where adding ½ before truncating rounds wrongly
+				h := []float64{0.5, -0.5, 1.5, -1.5, 2.5}[r.Intn(5)] * step
+				p[j].X = math.Nextafter(h, []float64{0, 3 * h}[r.Intn(2)])
 			}
 			k = float64(r.Range(-40, 40))
 			switch r.Pick(3, 2, 2) {
@@ -192,6 +252,19 @@ func genDCase(r *Rng) dCase {
 	}
 	c := dCase{Fn: dFns[r.Intn(len(dFns))], Prec: prec, CT: r.Range(1, 4), FR: r.Intn(4), JT: r.Intn(4), ET: r.Intn(5), Flag: r.Bool()}
 	c.A, c.B = genDPaths(r, prec, r.Range(1, 2)), genDPaths(r, prec, 1)
+	if c.Fn == "quantise" {
+		c.Prec = 0
+		big := func() float64 {
+			m := []float64{1 << 30, 1 << 51, 1 << 52, (1 << 53) - 64}[r.Intn(4)]
+			v := m + float64(r.Range(0, 63))
+			if r.Bool() {
+				v = -v
+			}
+			return v
+		}
+		c.A = clip.PathsD{{{X: big(), Y: big()}, {X: big(), Y: 0.49999999999999994}, {X: -0.49999999999999994, Y: big()}}}
+		c.B = nil
+	}
 	step := math.Pow(10, float64(-prec))
 	c.Delta = float64(r.Range(-6, 12)) * step * 2.5
 	c.ArcTol = []float64{0, 0.25 * step, step}[r.Intn(3)]
@@ -202,7 +275,7 @@ func genDCase(r *Rng) dCase {
 
 func c07Check(c dCase) (ok bool, kind, detail string) {
 	if c.Fn == "precision-range" {
-		for _, fn := range dFns[:len(dFns)-1] {
+		for _, fn := range dFns[:len(dFns)-2] {
 			for _, p := range []int{-9, 9, 12, -100} {
 				if got := precisionPanics(fn, p, c); got != "ErrPrecisionRange" {
 					return false, "precision-range:" + fn, fmt.Sprintf("%s with precision %d: %s (want the ErrPrecisionRange panic)", fn, p, got)
@@ -211,6 +284,21 @@ func c07Check(c dCase) (ok bool, kind, detail string) {
 			for _, p := range []int{-8, 8, 1} {
 				if got := precisionPanics(fn, p, c); got != "no panic" {
 					return false, "precision-range:" + fn, fmt.Sprintf("%s with valid precision %d: %s", fn, p, got)
+				}
+			}
+		}
+		return true, "", ""
+	}
+	if msg := quantCheck(c); msg != "" {
+		return false, "quantisation", msg
+	}
+	if c.Fn == "quantise" {
+		// magnitudes at which adding ½ is no longer exact: integral doubles up to 2^53 must map to themselves
+		for _, p := range c.A {
+			q := clip.ScalePathDToPath64(p, 1)
+			for j, pt := range p {
+				if !nearestOK(pt.X, 0, q[j].X) || !nearestOK(pt.Y, 0, q[j].Y) {
+					return false, "quantisation", fmt.Sprintf("ScalePathDToPath64 maps %v to %v at scale 1", pt, q[j])
 				}
 			}
 		}
@@ -228,7 +316,7 @@ func c07Check(c dCase) (ok bool, kind, detail string) {
 
 func init() {
 	stages["c07-search"] = func(ctx *Ctx, cnt func(q, t int) int, replay string) Result {
-		col := NewCollector("C07", "search", "every D entry point × 17 precisions (default 2 most often) on inputs made of quantum multiples, exact ties (n+½ quanta) and off-grid values; the D result is compared EXACTLY with unscale(f64(quantise(inputs), scaled scalars)) computed through the 64-bit API; out-of-range precisions must raise ErrPrecisionRange; non-trivial = non-empty result; distinct by input")
+		col := NewCollector("C07", "search", "every D entry point × 17 precisions (default 2 most often) on inputs made of quantum multiples, exact ties (n+½ quanta), the doubles next to ±½, ±1½, 2½ quanta and off-grid values; every coordinate's quantisation is checked with own exact arithmetic to be a nearest integer of the scaled value (also for integral doubles up to 2^53); the D result is compared EXACTLY with unscale(f64(quantise(inputs), scaled scalars)) computed through the 64-bit API; out-of-range precisions must raise ErrPrecisionRange; non-trivial = non-empty result; distinct by input")
 		parallelFor(ctx, cnt(20000, 600000), false, col, func(o *Oracle, i int) {
 			c := genDCase(NewRng(ctx.Seed, "c07", i))
 			ok, kind, detail := c07Check(c)
